@@ -212,3 +212,102 @@ pub fn run_concurrent(out: &mut dyn Write, seed: u64, count: usize) {
         })).ok();
     }
 }
+
+
+// ---------------------------------------------------------------------------------------------
+// races between forced and non-forced deliveries, followed by a lone later message (spec/MetaConc.tla)
+// ---------------------------------------------------------------------------------------------
+
+/// SETREPL whose peer address carries the message id, so that INFOREPL tells which message is installed
+fn repl_cmd(id: usize, epoch: u64, force: bool) -> Vec<Vec<u8>> {
+    let flags = if force { "FORCE" } else { "NOFLAG" };
+    let v: Vec<String> = vec!["UMCTL".into(), "SETREPL".into(), epoch.to_string(), flags.into(), "master".into(), "c5".into(), NODE_A.into(), "1".into(),
+                              format!("127.0.0.2:{}", 6100 + id), "127.0.0.2:7000".into()];
+    v.into_iter().map(String::into_bytes).collect()
+}
+
+/// id of the message whose roles are installed (0 = none)
+async fn repl_installed_id(net: &Net) -> i64 {
+    let r = net.proxy_exec(PROXY, vec![b"UMCTL".to_vec(), b"INFOREPL".to_vec()]).await;
+    if let Resp::Arr(Array::Arr(items)) = r {
+        for it in items {
+            if let Resp::Arr(Array::Arr(lines)) = it {
+                for l in lines {
+                    if let Resp::Bulk(BulkStr::Str(b)) = l {
+                        let s = String::from_utf8_lossy(&b).to_string();
+                        if let Some(rest) = s.strip_prefix("replica:").or_else(|| s.strip_prefix("master:")) {
+                            // <host>:<port>@<proxy>
+                            let node = rest.split('@').next().unwrap_or("");
+                            if let Some(p) = node.trim().rsplit(':').next().and_then(|x| x.parse::<i64>().ok()) {
+                                return p - 6100;
+                            }
+                        }
+                    }
+                }
+            }
+        }
+    }
+    0
+}
+
+/// `count` batches: 2-3 concurrent replication messages, some of them forced, under the thread scheduler (every third batch
+/// follows the schedule of the TLC counterexample of MetaConc_MC_force_asbuilt), then ONE more non-forced message alone.
+pub fn run_race(out: &mut dyn Write, seed: u64, count: usize) {
+    crate::sched::install_hooks();
+    let mut rng = StdRng::seed_from_u64(seed ^ 0x5eed);
+    let shared = tokio::runtime::Builder::new_multi_thread().worker_threads(2).enable_all().build().expect("rt");
+    let handle = shared.handle().clone();
+    for i in 0..count {
+        let net = handle.block_on(async { fresh_net() });
+        let directed = i % 3 == 0;
+        // (epoch, force) per message; ids are 1-based
+        let msgs: Vec<(u64, bool)> = if directed {
+            let hi = rng.gen_range(4..=6);
+            let lo = rng.gen_range(1..=2);
+            vec![(hi, false), (lo, true)]
+        } else {
+            let n = rng.gen_range(2..=3);
+            (0..n).map(|_| (rng.gen_range(1..=6), rng.gen_bool(0.4))).collect()
+        };
+        let n = msgs.len();
+        let sched = Sched::with_stall(40);
+        let results = std::sync::Arc::new(parking_lot::Mutex::new(vec![String::new(); n]));
+        let mut handles = vec![];
+        for j in 0..n {
+            sched.register(&format!("d{}", j));
+        }
+        for (j, (epoch, force)) in msgs.iter().cloned().enumerate() {
+            let net = net.clone();
+            let results = results.clone();
+            let s = sched.clone();
+            let rt = handle.clone();
+            handles.push(sched.spawn(&format!("d{}", j), move || {
+                s.point("d_start", j as u64);
+                let r = rt.block_on(net.proxy_exec(PROXY, repl_cmd(j + 1, epoch, force)));
+                results.lock()[j] = reply_code(&r);
+            }));
+        }
+        // counterexample schedule: the forced message stores its (lower) epoch optimistically, the non-forced one overwrites it,
+        // installs, then the forced one installs
+        let hints: Vec<String> = if directed { ["d1", "d1", "d1", "d0", "d0", "d0", "d0", "d1", "d1"].iter().map(|x| x.to_string()).collect() } else { vec![] };
+        let log = sched.run(&hints, seed.wrapping_mul(37).wrapping_add(i as u64), 2000, &|_, _| true, &[]);
+        for h in handles {
+            let _ = h.join();
+        }
+        let installed_id = handle.block_on(repl_installed_id(&net));
+        let installed_epoch = if installed_id >= 1 && (installed_id as usize) <= n { msgs[installed_id as usize - 1].0 } else { 0 };
+        // the lone later message
+        let late_epoch = rng.gen_range(1..=7u64);
+        let late_id = n + 1;
+        let lr = handle.block_on(net.proxy_exec(PROXY, repl_cmd(late_id, late_epoch, false)));
+        let after_id = handle.block_on(repl_installed_id(&net));
+        let order: Vec<String> = log.iter().filter(|e| e.get("label").is_some()).map(|e| format!("{}:{}", e["t"].as_str().unwrap_or(""), e["label"].as_str().unwrap_or(""))).collect();
+        writeln!(out, "{}", json!({
+            "kind": "race", "mkind": "R", "directed": directed,
+            "msgs": msgs.iter().enumerate().map(|(j, (e, f))| json!({"id": j + 1, "epoch": e, "force": f})).collect::<Vec<_>>(),
+            "replies": results.lock().clone(), "installed_id": installed_id, "installed_epoch": installed_epoch,
+            "late": {"id": late_id, "epoch": late_epoch}, "late_reply": reply_code(&lr), "after_id": after_id,
+            "schedule": order, "free_run": log.iter().any(|e| e["ev"] == "watchdog_free_run" || e["ev"] == "max_steps_free_run"),
+        })).ok();
+    }
+}
